@@ -173,7 +173,7 @@ RE_FAIL = re.compile(r'^<<"FAIL", (\d+), (-?\d+), "([^"]*)", \{([^}]*)\}(?:, (.*
 RE_DONE = re.compile(r'^<<"DONE", (\d+), (\d+)>>$')
 
 
-def validate(work, trace_spec, trace_files, nproc, timeout, depth=0):
+def validate(work, trace_spec, trace_files, nproc, timeout, depth=0, xmx="2g", alone=False):
     """Validate recorded events with the TLC trace spec, sharded over nproc single-worker TLC processes.
     Returns list of (event_dict, set_of_failed_clauses) and the number of events examined."""
     events = []
@@ -189,6 +189,9 @@ def validate(work, trace_spec, trace_files, nproc, timeout, depth=0):
     if n == 0:
         return [], 0, 0
     nshards = max(1, min(nproc, n // 40 + 1))
+    # a TLC process holds its whole shard in memory (Rec): bound the shard size, and run the shards in waves of nproc
+    total_bytes = sum(len(e) for e in events)
+    nshards = max(nshards, total_bytes // (120 << 20) + 1, n // 30000 + 1)
     # histories (a `begin` event followed by stateful events) must stay together, in order, in one shard; every other
     # event stands alone.  (Trace files of different origins are concatenated - e.g. model replays, which have no
     # histories, before a recording that has - so this is decided per event, never from the head of the list.)
@@ -221,6 +224,7 @@ def validate(work, trace_spec, trace_files, nproc, timeout, depth=0):
         shards[i].extend(g)
         load[i] += sum(len(x) for x in g)
     procs = []
+    pending = []
     for i, sh in enumerate(shards):
         if not sh:
             continue
@@ -230,21 +234,39 @@ def validate(work, trace_spec, trace_files, nproc, timeout, depth=0):
         with open(tp, "w") as f:
             f.write("\n".join(sh) + "\n")
         outp = os.path.join(d, "tlc.out")
-        cmd = java_cmd() + ["-workers", "1", "-metadir", d, "-noGenerateSpecTE", "-config",
-                            os.path.join(SPEC, trace_spec + ".cfg"), os.path.join(SPEC, trace_spec + ".tla")]
+        cmd = java_cmd(xmx) + ["-workers", "1", "-metadir", d, "-noGenerateSpecTE", "-config",
+                               os.path.join(SPEC, trace_spec + ".cfg"), os.path.join(SPEC, trace_spec + ".tla")]
         env = dict(os.environ)
         env["TRACE"] = tp
+        pending.append((cmd, env, d, outp, sh))
+
+    def launch(job):
+        cmd, env, d, outp, sh = job
         f = open(outp, "w")
-        procs.append((subprocess.Popen(cmd, env=env, cwd=d, stdout=f, stderr=subprocess.STDOUT), f, outp, sh, d))
+        return (subprocess.Popen(cmd, env=env, cwd=d, stdout=f, stderr=subprocess.STDOUT), f, outp, sh, d)
+
+    running = [launch(j) for j in pending[:nproc]]
+    queue = pending[nproc:]
+    t_wave_end = time.time() + timeout
+    while running:
+        still = []
+        for r in running:
+            if r[0].poll() is None:
+                still.append(r)
+            else:
+                procs.append(r)
+                if queue:
+                    still.append(launch(queue.pop(0)))
+        running = still
+        if running:
+            if time.time() > t_wave_end:
+                for q in running:
+                    q[0].kill()
+                raise ToolError("TLC trace validation (%s) timed out after %ds" % (trace_spec, timeout))
+            time.sleep(0.2)
     failures = []
     t_end = time.time() + timeout
     for p, f, outp, sh, d in procs:
-        try:
-            p.wait(timeout=max(1, t_end - time.time()))
-        except subprocess.TimeoutExpired:
-            for q in procs:
-                q[0].kill()
-            raise ToolError("TLC trace validation (%s) timed out after %ds" % (trace_spec, timeout))
         f.close()
         txt = open(outp, errors="replace").read()
         done = None
@@ -290,7 +312,35 @@ def validate(work, trace_spec, trace_files, nproc, timeout, depth=0):
                 while b > 0 and '"op":"begin"' not in sh[b]:
                     b -= 1
                 ev["_history"] = [json.loads(x) for x in sh[b:bad - 1]]
-            failures.append((ev, {"UNEXPLAINABLE"}, "trace spec could not evaluate this event: " + err))
+            explained = False
+            if not alone:
+                # TLC may have stopped for lack of resources (a shard is held in memory as a whole) rather than because of
+                # this event: judge the event again on its own (with its history), with a larger heap, before reporting it
+                b = bad - 1
+                if stateful and ev.get("op") in STATEFUL_OPS:
+                    while b > 0 and '"op":"begin"' not in sh[b]:
+                        b -= 1
+                ap = os.path.join(d, "alone.ndjson")
+                with open(ap, "w") as af:
+                    af.write("\n".join(sh[b:bad]) + "\n")
+                asub = os.path.join(d, "alone")
+                os.makedirs(asub, exist_ok=True)
+                try:
+                    fl1, _, _ = validate(asub, trace_spec, [ap], 1, max(900, t_end - time.time()), depth + 1, xmx="8g", alone=True)
+                    explained = not any("UNEXPLAINABLE" in c for _, c, _ in fl1)
+                    if explained:
+                        # only the event itself is judged here; its history was already judged in this shard
+                        for ev1, c1, x1 in fl1:
+                            if ev1.get("case") == ev.get("case") and ev1.get("op") == ev.get("op"):
+                                if "_history" in ev:
+                                    ev1["_history"] = ev["_history"]
+                                ev1["_src"] = ev["_src"]
+                                failures.append((ev1, c1, x1))
+                        sys.stderr.write("note: %s event (case %s) was evaluated on its own after TLC stopped in a shard (%s)\n" % (ev.get("op"), ev.get("case"), err[:80]))
+                except ToolError:
+                    explained = False
+            if not explained:
+                failures.append((ev, {"UNEXPLAINABLE"}, "trace spec could not evaluate this event: " + err))
             rest = sh[bad:]
             if stateful:
                 # the abstract registers are lost: resume at the next history
